@@ -128,6 +128,29 @@ static std::string process(const std::string & line) {
             out = "R ok pos=" + std::to_string(static_cast<long long>(uf.m_tellg)) +
                   " good=" + (uf.good() ? "1" : "0") + " eof=" + (uf.eof() ? "1" : "0") + " |";
             ci->dump(obj, out);
+        } else if (cmd == "RT") {
+            /* as R, with ntail filler bytes behind the encoding (so that a hostile length really copies); long byte members are abbreviated */
+            std::string hex;
+            long long ntail = 0;
+            ss >> hex >> ntail;
+            std::vector<unsigned char> b = hex == "-" ? std::vector<unsigned char>() : rt_unhex("x" + hex);
+            b.insert(b.end(), static_cast<size_t>(ntail), static_cast<unsigned char>(0x5a));
+            UncompressedFile uf;
+            if (!b.empty()) uf.write(reinterpret_cast<const char *>(b.data()), static_cast<std::streamsize>(b.size()));
+            uf.setFileSize(uf.m_tellp);
+            { CapScope cap; ci->read(obj, uf); }
+            out = "RT ok pos=" + std::to_string(static_cast<long long>(uf.m_tellg)) +
+                  " good=" + (uf.good() ? "1" : "0") + " eof=" + (uf.eof() ? "1" : "0") + " |";
+            std::string full;
+            ci->dump(obj, full);
+            std::istringstream ts(full);
+            std::string tok;
+            while (ts >> tok) {
+                size_t e = tok.find("=x");
+                if (e != std::string::npos && tok.size() - e - 2 > 64)
+                    tok = tok.substr(0, e) + "=#" + std::to_string((tok.size() - e - 2) / 2);
+                out += " " + tok;
+            }
         } else if (cmd == "D") {
             std::string hex;
             ss >> hex;
